@@ -54,6 +54,20 @@ func ZZ_L1() {
 		f(&opts)
 	}
 	p := newProcess(e, opts)
+	if MW > 0 {
+		// another actor is configured afterwards with a chain of its own: that must not leak into this actor's chain
+		other := DefaultOpts(zzProducer(&zzMon{}))
+		decoy := func(next ReceiveFunc) ReceiveFunc {
+			return func(c *Context) {
+				if c.PID() == p.pid {
+					zzrt.Fail("C13:delivery-ran-through-another-actor's-middleware")
+				}
+				next(c)
+			}
+		}
+		WithMiddleware(decoy, decoy)(&other)
+		_ = newProcess(e, other)
+	}
 	fake := &zzFakeInbox{}
 	p.inbox = fake
 	senderA := NewPID("local", "sender/a")
